@@ -46,10 +46,15 @@ def expand_comparisons(stm: AST) -> AST:
     return stm
 
 
+def _splittable(lit: AST) -> bool:
+    """a negated comparison chain `not A < B < C` is no conjunction of negated comparisons and is kept as it is"""
+    return bool(lit.sign != Sign.Negation or len(lit.atom.guards) == 1)
+
+
 def _normalize_operators_condition(condition: list[AST]) -> list[AST]:
     new_condition: list[AST] = []
     for c in condition:
-        if c.ast_type == ASTType.Literal and c.atom.ast_type == ASTType.Comparison:
+        if c.ast_type == ASTType.Literal and c.atom.ast_type == ASTType.Comparison and _splittable(c):
             new_condition.extend(
                 [
                     Literal(LOC, c.sign, Comparison(lhs, [Guard(cop, rhs)]))
@@ -73,7 +78,7 @@ def normalize_operators(literals: Iterable[AST]) -> list[AST]:
             new_literals.append(new_lit)  # nocoverage
             continue  # nocoverage
         atom = lit.atom
-        if atom.ast_type == ASTType.Comparison:
+        if atom.ast_type == ASTType.Comparison and _splittable(lit):
             new_literals.extend(
                 [
                     Literal(LOC, lit.sign, Comparison(lhs, [Guard(cop, rhs)]))
